@@ -136,33 +136,35 @@ type loopCtx struct {
 }
 
 type G struct {
-	r         *prng.R
-	feat      map[string]int
-	structs   []*StructDef
-	globals   []*Var
-	funcs     []*Func // callable helpers (already generated)
-	scopes    []*scope
-	loops     []loopCtx
-	cur       *Func
-	nvar      int
-	nlbl      int
-	budget    int // statements left for the current function
-	depth     int // nesting depth of blocks
-	inDefer   bool
-	hasDefer  bool
-	hasBump   bool
-	noCalls   bool
-	safe      bool // no operation that can panic (global initialisers run in the batch's package init)
-	loopNest  int
-	selfCalls int
-	topCall   bool     // the call being generated is the whole right-hand side of a statement
-	cleanStr  bool     // string expressions must be ByteStrings
-	hidden    *Var     // a variable that must not be mentioned (the target of a multi-argument append)
-	pure      bool     // the function being generated must not have side effects visible outside
-	impure    bool     // … and this one turned out to have some
-	initFns   []string // bodies of init functions (plain/checked pairs rendered later)
-	inits     []E
-	decls     []E
+	r            *prng.R
+	feat         map[string]int
+	structs      []*StructDef
+	globals      []*Var
+	funcs        []*Func // callable helpers (already generated)
+	scopes       []*scope
+	loops        []loopCtx
+	cur          *Func
+	nvar         int
+	nlbl         int
+	budget       int // statements left for the current function
+	depth        int // nesting depth of blocks
+	inDefer      bool
+	hasDefer     bool
+	hasBump      bool
+	noLoopInline bool // no inlined helper that contains a loop (VarSum, SumVar)
+	useInline    bool // the program imports the compiler's testdata/inline package
+	noCalls      bool
+	safe         bool // no operation that can panic (global initialisers run in the batch's package init)
+	loopNest     int
+	selfCalls    int
+	topCall      bool     // the call being generated is the whole right-hand side of a statement
+	cleanStr     bool     // string expressions must be ByteStrings
+	hidden       *Var     // a variable that must not be mentioned (the target of a multi-argument append)
+	pure         bool     // the function being generated must not have side effects visible outside
+	impure       bool     // … and this one turned out to have some
+	initFns      []string // bodies of init functions (plain/checked pairs rendered later)
+	inits        []E
+	decls        []E
 }
 
 func (g *G) f(name string) { g.feat[name]++ }
@@ -345,7 +347,37 @@ func (g *G) genExpr(t Ty, d int) E {
 	panic("bad type")
 }
 
+// genInline: a call of a helper that the compiler inlines; the checked rendering spells the helper out.
+func (g *G) genInline(d int) E {
+	a, b := g.genInt(d-1), g.genInt(d-1)
+	which := g.r.Intn(5)
+	if g.noLoopInline && (which == 2 || which == 4) {
+		which = 0
+	}
+	switch which {
+	case 0:
+		g.f("expr:inline-Sum")
+		return E{"inline.Sum(" + a.p + ", " + b.p + ")", "ck_add(" + a.c + ", " + b.c + ")", 6, false}
+	case 1:
+		g.f("expr:inline-SumSquared")
+		return E{"inline.SumSquared(" + a.p + ", " + b.p + ")", "ck_mul(ck_add(" + a.c + ", " + b.c + "), ck_add(" + a.c + ", " + b.c + "))", 6, false}
+	case 2:
+		c3 := g.genInt(d - 1)
+		g.f("expr:inline-VarSum")
+		return E{"inline.VarSum(" + a.p + ", " + b.p + ", " + c3.p + ")", "ck_add(ck_add(" + a.c + ", " + b.c + "), " + c3.c + ")", 6, false}
+	case 3:
+		g.f("expr:inline-Concat")
+		return E{"inline.Concat(" + a.p + ")", "ck_add(ck_mul(" + a.c + ", 100), 121)", 6, false}
+	default:
+		g.f("expr:inline-SumVar")
+		return E{"inline.SumVar(" + a.p + ", " + b.p + ")", "ck_add(" + a.c + ", " + b.c + ")", 6, false}
+	}
+}
+
 func (g *G) genInt(d int) E {
+	if g.useInline && d > 0 && !g.safe && !g.noCalls && g.r.Chance(1, 8) {
+		return g.genInline(d)
+	}
 	if d <= 0 || g.r.Chance(1, 4) {
 		if v := g.pickVar(KInt, false); v != nil && g.r.Chance(3, 4) {
 			return g.use(v)
@@ -1396,7 +1428,11 @@ func (g *G) genSwitch() E {
 		g.f("stmt:switch-tagless")
 		head = E{"switch {\n", "switch {\n", 0, false}
 	} else {
+		// the switch's label is taken after init and tag are walked: an inlined helper with a loop in them would
+		// consume the label of a labeled switch (known finding inline-steals-label)
+		g.noLoopInline = true
 		t := g.genInt(2)
+		g.noLoopInline = false
 		if isLit(t) {
 			if v := g.pickVar(KInt, false); v != nil {
 				t = g.use(v)
